@@ -22,7 +22,6 @@ Notation "x <- e ;; f" := (match e with Some x => f | None => None end)
 Inductive fl := FFin (q : Q) | FInf | FNegInf | FNaN.           (* a Python float, exactly *)
 Inductive num := NInt (z : Z) | NFloat (f : fl).                 (* int or float *)
 Inductive pkey := KStr (s : string) | KInt (z : Z).              (* dict keys that occur *)
-Inductive skind := STuple | SList.
 
 Inductive pyv :=
 | PNone
@@ -32,10 +31,8 @@ Inductive pyv :=
 | PStr (s : string)
 | PList (l : list pyv)
 | PTuple (l : list pyv)
-| PDict (d : list (pkey * pyv))      (* insertion ordered *)
-| PMapping (d : list (pkey * pyv)).  (* a Mapping that is not a dict (pharmpy's frozenmapping): json.dumps refuses it *)
+| PDict (d : list (pkey * pyv)).     (* insertion ordered *)
 
-Definition mkseq (k : skind) (l : list pyv) : pyv := match k with STuple => PTuple l | SList => PList l end.
 Definition of_num (n : num) : pyv := match n with NInt z => PInt z | NFloat f => PFloat f end.
 Definition of_opt {A} (f : A -> pyv) (o : option A) : pyv := match o with Some a => f a | None => PNone end.
 
@@ -54,23 +51,15 @@ Fixpoint normalise (v : pyv) : pyv :=
   | _ => v
   end.
 
+Definition norm_items (d : list (pkey * pyv)) : list (pkey * pyv) :=
+  map (fun kv => match kv with (k, x) => (norm_key k, normalise x) end) d.
+
 (* a value that json.loads can return *)
 Fixpoint is_json (v : pyv) : bool :=
   match v with
   | PList l => forallb is_json l
   | PTuple _ => false
   | PDict d => forallb (fun kv => match kv with (KStr _, x) => is_json x | (KInt _, _) => false end) d
-  | PMapping _ => false
-  | _ => true
-  end.
-
-(* json.dumps accepts the value (no TypeError) *)
-Fixpoint jsonable (v : pyv) : bool :=
-  match v with
-  | PList l => forallb jsonable l
-  | PTuple l => forallb jsonable l
-  | PDict d => forallb (fun kv => jsonable (snd kv)) d
-  | PMapping _ => false
   | _ => true
   end.
 
@@ -93,8 +82,6 @@ Fixpoint list_eqb {A} (eqb : A -> A -> bool) (a b : list A) : bool :=
   end.
 Definition opt_eqb {A} (eqb : A -> A -> bool) (a b : option A) : bool :=
   match a, b with Some x, Some y => eqb x y | None, None => true | _, _ => false end.
-Definition skind_eqb (a b : skind) : bool :=
-  match a, b with STuple, STuple | SList, SList => true | _, _ => false end.
 
 Fixpoint pyv_same (a b : pyv) {struct a} : bool :=
   match a, b with
@@ -114,11 +101,6 @@ Fixpoint pyv_same (a b : pyv) {struct a} : bool :=
                            | u :: x', v :: y' => pyv_same u v && go x' y'
                            | _, _ => false end) x y
   | PDict x, PDict y => (fix go (x y : list (pkey * pyv)) : bool :=
-                           match x, y with
-                           | [], [] => true
-                           | (k, u) :: x', (k', v) :: y' => pkey_same k k' && pyv_same u v && go x' y'
-                           | _, _ => false end) x y
-  | PMapping x, PMapping y => (fix go (x y : list (pkey * pyv)) : bool :=
                            match x, y with
                            | [], [] => true
                            | (k, u) :: x', (k', v) :: y' => pkey_same k k' && pyv_same u v && go x' y'
@@ -169,7 +151,7 @@ Fixpoint pyv_pyeq (a b : pyv) {struct a} : bool :=
                            | [], [] => true
                            | u :: x', v :: y' => pyv_pyeq u v && go x' y'
                            | _, _ => false end) x y
-  | PDict x, PDict y | PDict x, PMapping y | PMapping x, PDict y | PMapping x, PMapping y =>
+  | PDict x, PDict y =>
       Nat.eqb (List.length x) (List.length y) &&
       (fix go (x : list (pkey * pyv)) : bool :=
          match x with
@@ -199,12 +181,19 @@ Definition as_bool (v : pyv) : option bool := match v with PBool b => Some b | _
 Definition as_int (v : pyv) : option Z := match v with PInt z => Some z | _ => None end.
 Definition as_num (v : pyv) : option num :=
   match v with PInt z => Some (NInt z) | PFloat f => Some (NFloat f) | _ => None end.
-Definition as_seq (v : pyv) : option (skind * list pyv) :=
-  match v with PList l => Some (SList, l) | PTuple l => Some (STuple, l) | _ => None end.
 Definition as_items (v : pyv) : option (list pyv) :=
   match v with PList l => Some l | PTuple l => Some l | _ => None end.
 Definition as_opt {A} (f : pyv -> option A) (v : pyv) : option (option A) :=
   match v with PNone => Some None | _ => x <- f v ;; Some (Some x) end.
+
+(* sorted(l, key=...): stable insertion sort *)
+Fixpoint ins_by {A K} (key : A -> K) (leb : K -> K -> bool) (a : A) (l : list A) : list A :=
+  match l with
+  | [] => [a]
+  | x :: tl => if leb (key a) (key x) then a :: l else x :: ins_by key leb a tl
+  end.
+Definition sort_by {A K} (key : A -> K) (leb : K -> K -> bool) (l : list A) : list A :=
+  fold_right (ins_by key leb) [] l.
 
 Fixpoint traverse {A B} (f : A -> option B) (l : list A) : option (list B) :=
   match l with
@@ -317,8 +306,8 @@ Definition hier_from_dict (v : pyv) : option (list vlevel) :=
   d <- as_dict v ;; l <- dget "levels" d ;; l <- as_items l ;; traverse vlevel_from_dict l.
 
 Record normal := mkNormal { nd_name : string; nd_level : string; nd_mean : E; nd_var : E }.
-(* names is stored verbatim: a tuple after create(), whatever d['names'] was after from_dict *)
-Record jnormal := mkJoint { jn_kind : skind; jn_names : list string; jn_level : string;
+(* names is a tuple: create() and from_dict() both make it one *)
+Record jnormal := mkJoint { jn_names : list string; jn_level : string;
                             jn_mean : mat G; jn_var : mat G }.
 Inductive dist := DNormal (d : normal) | DJoint (d : jnormal).
 
@@ -337,15 +326,15 @@ Definition get_mat (k : string) (d : list (pkey * pyv)) : option (mat G) :=
   v <- dget k d ;; s <- as_str v ;; mdeser G s.
 Definition joint_to_dict (x : jnormal) : pyv :=
   PDict [(KStr "class", PStr "JointNormalDistribution");
-         (KStr "names", mkseq (jn_kind x) (map PStr (jn_names x)));
+         (KStr "names", PTuple (map PStr (jn_names x)));
          (KStr "level", PStr (jn_level x)); (KStr "mean", PStr (mser G (jn_mean x)));
          (KStr "variance", PStr (mser G (jn_var x)))].
 Definition joint_from_dict (v : pyv) : option jnormal :=
   d <- as_dict v ;;
-  ns <- dget "names" d ;; kn <- as_seq ns ;; names <- traverse as_str (snd kn) ;;
+  ns <- dget "names" d ;; ns <- as_items ns ;; names <- traverse as_str ns ;;       (* tuple(d['names']) *)
   lv <- dget "level" d ;; lv <- as_str lv ;;
   m <- get_mat "mean" d ;; va <- get_mat "variance" d ;;
-  Some (mkJoint (fst kn) names lv m va).
+  Some (mkJoint names lv m va).
 
 Definition dist_to_dict (x : dist) : pyv :=
   match x with DNormal n => normal_to_dict n | DJoint j => joint_to_dict j end.
@@ -359,7 +348,7 @@ Definition normal_eqb (a b : normal) : bool :=
   String.eqb (nd_name a) (nd_name b) && String.eqb (nd_level a) (nd_level b)
   && expr_eqb G (nd_mean a) (nd_mean b) && expr_eqb G (nd_var a) (nd_var b).
 Definition joint_eqb (a b : jnormal) : bool :=
-  skind_eqb (jn_kind a) (jn_kind b) && list_eqb String.eqb (jn_names a) (jn_names b)
+  list_eqb String.eqb (jn_names a) (jn_names b)
   && String.eqb (jn_level a) (jn_level b)
   && mat_eqb G (jn_mean a) (jn_mean b) && mat_eqb G (jn_var a) (jn_var b).
 Definition dist_eqb (a b : dist) : bool :=
@@ -601,14 +590,11 @@ Definition dosing (g : graph) : option (list compartment) :=
   cen <- central g ;;
   Some (fold_left (place_dose cen) cs []).
 
-(* None = the comparison raises *)
-Definition cs_eq (a b : csys) : option bool :=
-  if negb (expr_eqb G (cs_t a) (cs_t b)) then Some false else
-  if negb (dod_eqb (cs_g a) (cs_g b)) then Some false else
-  match dosing (cs_g a), dosing (cs_g b) with
-  | Some x, Some y => Some (list_eqb comp_eqb x y)
-  | _, _ => None
-  end.
+(* __eq__: t, the dict of dicts, _dosing_compartments_or_none() (None = no dose / no central
+   compartment; two systems without either compare equal there) *)
+Definition cs_eq (a b : csys) : bool :=
+  expr_eqb G (cs_t a) (cs_t b) && dod_eqb (cs_g a) (cs_g b)
+  && opt_eqb (list_eqb comp_eqb) (dosing (cs_g a)) (dosing (cs_g b)).
 
 (* ------------------------------------------------------------------------------------------ *)
 (* Statements                                                                                 *)
@@ -624,26 +610,21 @@ Definition stmts_to_dict (l : list stmt) : pyv := PDict [(KStr "statements", PTu
 Definition stmts_from_dict (v : pyv) : option (list stmt) :=
   d <- as_dict v ;; l <- dget "statements" d ;; l <- as_items l ;; traverse stmt_from_dict l.
 
-Definition stmt_eq (a b : stmt) : option bool :=
+Definition stmt_eq (a b : stmt) : bool :=
   match a, b with
-  | SAssign x, SAssign y => Some (assign_eqb x y)
+  | SAssign x, SAssign y => assign_eqb x y
   | SOde x, SOde y => cs_eq x y
-  | _, _ => Some false end.
-(* len equal, then the first unequal pair decides; a raising comparison propagates *)
-Fixpoint stmts_eq_go (a b : list stmt) : option bool :=
-  match a, b with
-  | x :: a', y :: b' => r <- stmt_eq x y ;; if r then stmts_eq_go a' b' else Some false
-  | _, _ => Some true
-  end.
-Definition stmts_eq (a b : list stmt) : option bool :=
-  if negb (Nat.eqb (List.length a) (List.length b)) then Some false else stmts_eq_go a b.
+  | _, _ => false end.
+(* len equal, then the first unequal pair decides *)
+Definition stmts_eq (a b : list stmt) : bool :=
+  Nat.eqb (List.length a) (List.length b) && zip_all stmt_eq a b.
 
 (* ------------------------------------------------------------------------------------------ *)
 (* Execution steps  (model/execution_steps.py)                                                *)
 (* ------------------------------------------------------------------------------------------ *)
 (* derivatives: a tuple of tuples of symbols after create(); to_dict turns every inner tuple
-   into its str(), from_dict stores whatever sequence it is handed *)
-Inductive derivs := DSyms (l : list (list E)) | DStrs (k : skind) (l : list string).
+   into its str(), from_dict makes a tuple of whatever sequence it is handed *)
+Inductive derivs := DSyms (l : list (list E)) | DStrs (l : list string).
 
 Record common := mkCommon { co_solver : option string; co_rtol : option num; co_atol : option num;
                             co_tool : list (pkey * pyv) }.
@@ -651,7 +632,7 @@ Record eststep := mkEst {
   es_method : string; es_interaction : bool; es_pum : option string; es_evaluation : bool;
   es_maxeval : option Z; es_laplace : bool; es_isample : option Z; es_niter : option Z;
   es_auto : option bool; es_keep : option Z;
-  es_res_kind : skind; es_residuals : list string; es_pred_kind : skind; es_predictions : list string;
+  es_residuals : list string; es_predictions : list string;         (* tuples *)
   es_derivatives : derivs; es_ies : bool; es_common : common }.
 Record simstep := mkSim { ss_n : Z; ss_seed : Z; ss_common : common }.
 Inductive step := StEst (e : eststep) | StSim (s : simstep).
@@ -662,7 +643,7 @@ Definition common_items (c : common) : list (pkey * pyv) :=
 Definition derivs_to_py (d : derivs) : pyv :=
   match d with
   | DSyms l => PTuple (map (fun t => PStr (tup_str G t)) l)
-  | DStrs _ l => PTuple (map PStr l)
+  | DStrs l => PTuple (map PStr l)
   end.
 Definition est_to_dict (e : eststep) : pyv :=
   PDict ([(KStr "class", PStr "EstimationStep"); (KStr "method", PStr (es_method e));
@@ -674,8 +655,8 @@ Definition est_to_dict (e : eststep) : pyv :=
           (KStr "niter", of_opt PInt (es_niter e)); (KStr "auto", of_opt PBool (es_auto e));
           (KStr "keep_every_nth_iter", of_opt PInt (es_keep e));
           (KStr "derivatives", derivs_to_py (es_derivatives e));
-          (KStr "predictions", mkseq (es_pred_kind e) (map PStr (es_predictions e)));
-          (KStr "residuals", mkseq (es_res_kind e) (map PStr (es_residuals e)));
+          (KStr "predictions", PTuple (map PStr (es_predictions e)));
+          (KStr "residuals", PTuple (map PStr (es_residuals e)));
           (KStr "individual_eta_samples", PBool (es_ies e))] ++ common_items (es_common e))%list.
 
 Definition dget_def {A} (k : string) (d : list (pkey * pyv)) (def : A) (f : pyv -> option A) : option A :=
@@ -687,8 +668,8 @@ Definition common_from (d : list (pkey * pyv)) : option common :=
   at_ <- dget_def "solver_atol" d None (as_opt as_num) ;;
   t <- dget "tool_options" d ;; t <- as_dict t ;;          (* _adjust_dict reads d['tool_options'] *)
   Some (mkCommon so rt at_ t).
-Definition str_seq (v : pyv) : option (skind * list string) :=
-  kn <- as_seq v ;; l <- traverse as_str (snd kn) ;; Some (fst kn, l).
+(* tuple(d[key]) of a sequence of str *)
+Definition str_seq (v : pyv) : option (list string) := l <- as_items v ;; traverse as_str l.
 Definition est_keys : list string :=
   ["class"; "method"; "interaction"; "parameter_uncertainty_method"; "evaluation"; "maximum_evaluations";
    "laplace"; "isample"; "niter"; "auto"; "keep_every_nth_iter"; "residuals"; "predictions"; "solver";
@@ -708,12 +689,11 @@ Definition est_from_dict (v : pyv) : option eststep :=
   ni <- dget_def "niter" d None (as_opt as_int) ;;
   au <- dget_def "auto" d None (as_opt as_bool) ;;
   ke <- dget_def "keep_every_nth_iter" d None (as_opt as_int) ;;
-  re <- dget_def "residuals" d (STuple, []) str_seq ;;
-  pr <- dget_def "predictions" d (STuple, []) str_seq ;;
-  de <- dget_def "derivatives" d (STuple, []) str_seq ;;
+  re <- dget_def "residuals" d [] str_seq ;;
+  pr <- dget_def "predictions" d [] str_seq ;;
+  de <- dget_def "derivatives" d [] str_seq ;;
   ie <- dget_def "individual_eta_samples" d false as_bool ;;
-  Some (mkEst me ia pu ev mx la isa ni au ke (fst re) (snd re) (fst pr) (snd pr)
-              (DStrs (fst de) (snd de)) ie co).
+  Some (mkEst me ia pu ev mx la isa ni au ke re pr (DStrs de) ie co).
 
 Definition sim_to_dict (s : simstep) : pyv :=
   PDict ([(KStr "class", PStr "SimulationStep"); (KStr "n", PInt (ss_n s)); (KStr "seed", PInt (ss_seed s))]
@@ -736,18 +716,16 @@ Definition steps_to_dict (l : list step) : pyv := PDict [(KStr "steps", PTuple (
 Definition steps_from_dict (v : pyv) : option (list step) :=
   d <- as_dict v ;; l <- dget "steps" d ;; l <- as_items l ;; traverse step_from_dict l.
 
-Definition seq_eqb (k : skind) (a : list string) (k' : skind) (b : list string) : bool :=
-  skind_eqb k k' && list_eqb String.eqb a b.
 (* a tuple of tuples of symbols never equals a sequence of strings, except when both are () *)
 Definition derivs_eqb (a b : derivs) : bool :=
   match a, b with
   | DSyms x, DSyms y => list_eqb (list_eqb (expr_eqb G)) x y
-  | DStrs k x, DStrs k' y => seq_eqb k x k' y
-  | DSyms [], DStrs STuple [] | DStrs STuple [], DSyms [] => true
+  | DStrs x, DStrs y => list_eqb String.eqb x y
+  | DSyms [], DStrs [] | DStrs [], DSyms [] => true
   | _, _ => false end.
 (* the values to_dict / from_dict reproduce: a tuple of strings (in particular the default ()) *)
 Definition derivs_stable (d : derivs) : bool :=
-  match d with DStrs STuple _ => true | DSyms [] => true | _ => false end.
+  match d with DStrs _ => true | DSyms [] => true | _ => false end.
 Definition common_eqb (a b : common) : bool :=
   opt_eqb String.eqb (co_solver a) (co_solver b) && opt_eqb num_pyeq (co_rtol a) (co_rtol b)
   && opt_eqb num_pyeq (co_atol a) (co_atol b) && pyv_pyeq (PDict (co_tool a)) (PDict (co_tool b)).
@@ -758,8 +736,8 @@ Definition est_eqb (a b : eststep) : bool :=
   && opt_eqb Z.eqb (es_isample a) (es_isample b) && opt_eqb Z.eqb (es_niter a) (es_niter b)
   && opt_eqb Bool.eqb (es_auto a) (es_auto b) && opt_eqb Z.eqb (es_keep a) (es_keep b)
   && derivs_eqb (es_derivatives a) (es_derivatives b)
-  && seq_eqb (es_pred_kind a) (es_predictions a) (es_pred_kind b) (es_predictions b)
-  && seq_eqb (es_res_kind a) (es_residuals a) (es_res_kind b) (es_residuals b)
+  && list_eqb String.eqb (es_predictions a) (es_predictions b)
+  && list_eqb String.eqb (es_residuals a) (es_residuals b)
   && Bool.eqb (es_ies a) (es_ies b) && common_eqb (es_common a) (es_common b).
 Definition sim_eqb (a b : simstep) : bool :=
   Z.eqb (ss_n a) (ss_n b) && Z.eqb (ss_seed a) (ss_seed b) && common_eqb (ss_common a) (ss_common b).
@@ -769,22 +747,43 @@ Definition step_eqb (a b : step) : bool :=
 (* ------------------------------------------------------------------------------------------ *)
 (* ColumnInfo / DataInfo  (model/datainfo.py)                                                 *)
 (* ------------------------------------------------------------------------------------------ *)
+(* categories as create() / from_dict() canonicalise them: None, a tuple of values, or a
+   frozenmapping value -> label *)
+Inductive cats := CNone | CTuple (l : list pyv) | CMap (d : list (pkey * pyv)).
+(* _plain_categories: a frozenmapping is written as a plain dict *)
+Definition cats_to_py (c : cats) : pyv := match c with CNone => PNone | CTuple l => PTuple l | CMap d => PDict d end.
+(* _canonicalize_categories; None = TypeError (a str, being a Sequence, would become the tuple of
+   its characters: outside the model) *)
+Definition cats_of_py (v : pyv) : option cats :=
+  match v with
+  | PNone => Some CNone
+  | PTuple l => Some (CTuple l)
+  | PList l => Some (CTuple l)
+  | PDict d => Some (CMap d)
+  | _ => None
+  end.
+Definition cats_pyeq (a b : cats) : bool := pyv_pyeq (cats_to_py a) (cats_to_py b).
+Definition cats_json (c : cats) : cats :=
+  match c with CNone => CNone | CTuple l => CTuple (map normalise l) | CMap d => CMap (norm_items d) end.
+Definition cats_is_json (c : cats) : bool :=
+  match c with CNone => true | CTuple l => forallb is_json l | CMap d => is_json (PDict d) end.
+
 Record column := mkColumn {
   ci_name : string; ci_type : string; ci_unit : unit G; ci_scale : string; ci_continuous : option bool;
-  ci_categories : pyv;              (* None | tuple/list of values | dict value -> label, verbatim *)
+  ci_categories : cats;
   ci_drop : bool; ci_datatype : string; ci_descriptor : option string }.
 
 Definition column_items (unit_text : string) (c : column) : list (pkey * pyv) :=
   [(KStr "name", PStr (ci_name c)); (KStr "type", PStr (ci_type c)); (KStr "unit", PStr unit_text);
    (KStr "scale", PStr (ci_scale c)); (KStr "continuous", of_opt PBool (ci_continuous c));
-   (KStr "categories", ci_categories c); (KStr "drop", PBool (ci_drop c));
+   (KStr "categories", cats_to_py (ci_categories c)); (KStr "drop", PBool (ci_drop c));
    (KStr "datatype", PStr (ci_datatype c)); (KStr "descriptor", of_opt PStr (ci_descriptor c))].
 (* ColumnInfo.to_dict *)
 Definition column_to_dict (c : column) : pyv := PDict (column_items (user G (ci_unit c)) c).
 (* the per-column dictionary written by DataInfo._to_dict: other key order, unit as str(unit) *)
 Definition column_to_dict_di (c : column) : pyv :=
   PDict [(KStr "name", PStr (ci_name c)); (KStr "type", PStr (ci_type c)); (KStr "scale", PStr (ci_scale c));
-         (KStr "continuous", of_opt PBool (ci_continuous c)); (KStr "categories", ci_categories c);
+         (KStr "continuous", of_opt PBool (ci_continuous c)); (KStr "categories", cats_to_py (ci_categories c));
          (KStr "unit", PStr (ustr G (ci_unit c))); (KStr "datatype", PStr (ci_datatype c));
          (KStr "drop", PBool (ci_drop c)); (KStr "descriptor", of_opt PStr (ci_descriptor c))].
 Definition column_from_dict (v : pyv) : option column :=
@@ -794,7 +793,7 @@ Definition column_from_dict (v : pyv) : option column :=
   u <- dget "unit" d ;; u <- as_str u ;; u <- udeser G u ;;
   sc <- dget "scale" d ;; sc <- as_str sc ;;
   co <- dget "continuous" d ;; co <- as_opt as_bool co ;;
-  ca <- dget "categories" d ;;
+  ca <- dget "categories" d ;; ca <- cats_of_py ca ;;
   dr <- dget "drop" d ;; dr <- as_bool dr ;;
   dt <- dget "datatype" d ;; dt <- as_str dt ;;
   de <- dget "descriptor" d ;; de <- as_opt as_str de ;;
@@ -803,8 +802,8 @@ Definition column_eqb (a b : column) : bool :=
   String.eqb (ci_name a) (ci_name b) && String.eqb (ci_type a) (ci_type b)
   && unit_eqb G (ci_unit a) (ci_unit b) && String.eqb (ci_scale a) (ci_scale b)
   && opt_eqb Bool.eqb (ci_continuous a) (ci_continuous b)
-  && pyv_pyeq (ci_categories a) (ci_categories b) && Bool.eqb (ci_drop a) (ci_drop b)
-  && String.eqb (ci_datatype a) (ci_datatype b).
+  && cats_pyeq (ci_categories a) (ci_categories b) && Bool.eqb (ci_drop a) (ci_drop b)
+  && String.eqb (ci_datatype a) (ci_datatype b) && opt_eqb String.eqb (ci_descriptor a) (ci_descriptor b).
 
 Record datainfo := mkDi { di_columns : list column; di_path : option string; di_separator : string;
                           di_missing : string }.
@@ -872,18 +871,16 @@ Definition map_eqb {A B} (keqb : A -> A -> bool) (veqb : B -> B -> bool) (a b : 
   forallb (fun kv => match alookup keqb (fst kv) b with Some v => veqb (snd kv) v | None => false end) a.
 
 (* Model.__eq__; name, description and dataset are not looked at *)
-Definition model_eq (a b : model) : option bool :=
-  if negb (params_eqb (m_parameters a) (m_parameters b)) then Some false else
-  if negb (rvs_eqb (m_rvs a) (m_rvs b)) then Some false else
-  r <- stmts_eq (m_statements a) (m_statements b) ;;
-  if negb r then Some false else
-  Some (map_eqb (expr_eqb G) Z.eqb (m_depvars a) (m_depvars b)
-        && map_eqb (expr_eqb G) (expr_eqb G) (m_obstrans a) (m_obstrans b)
-        && (Nat.eqb (List.length (m_steps a)) (List.length (m_steps b)) && zip_all step_eqb (m_steps a) (m_steps b))
-        && opt_eqb pyv_pyeq (m_iie a) (m_iie b)
-        && (Nat.eqb (List.length (di_columns (m_datainfo a))) (List.length (di_columns (m_datainfo b)))
-            && zip_all column_eqb (di_columns (m_datainfo a)) (di_columns (m_datainfo b)))
-        && String.eqb (m_value_type a) (m_value_type b)).
+Definition model_eq (a b : model) : bool :=
+  params_eqb (m_parameters a) (m_parameters b) && rvs_eqb (m_rvs a) (m_rvs b)
+  && stmts_eq (m_statements a) (m_statements b)
+  && map_eqb (expr_eqb G) Z.eqb (m_depvars a) (m_depvars b)
+  && map_eqb (expr_eqb G) (expr_eqb G) (m_obstrans a) (m_obstrans b)
+  && (Nat.eqb (List.length (m_steps a)) (List.length (m_steps b)) && zip_all step_eqb (m_steps a) (m_steps b))
+  && opt_eqb pyv_pyeq (m_iie a) (m_iie b)
+  && (Nat.eqb (List.length (di_columns (m_datainfo a))) (List.length (di_columns (m_datainfo b)))
+      && zip_all column_eqb (di_columns (m_datainfo a)) (di_columns (m_datainfo b)))
+  && String.eqb (m_value_type a) (m_value_type b).
 
 (* what from_dict (to_dict m) keeps of m *)
 Definition strip (m : model) : model :=
@@ -900,31 +897,23 @@ Definition blank (m : model) : model :=
 (* ---- what the two ways back keep of an object ---------------------------------------------- *)
 (* derivatives come back as the tuple of their texts *)
 Definition derivs_texts (d : derivs) : list string :=
-  match d with DSyms l => map (tup_str G) l | DStrs _ l => l end.
-Definition est_with (e : eststep) (rk : skind) (pk : skind) (d : derivs) (tool : list (pkey * pyv)) : eststep :=
+  match d with DSyms l => map (tup_str G) l | DStrs l => l end.
+Definition est_with (e : eststep) (d : derivs) (tool : list (pkey * pyv)) : eststep :=
   mkEst (es_method e) (es_interaction e) (es_pum e) (es_evaluation e) (es_maxeval e) (es_laplace e)
-        (es_isample e) (es_niter e) (es_auto e) (es_keep e) rk (es_residuals e) pk (es_predictions e) d (es_ies e)
+        (es_isample e) (es_niter e) (es_auto e) (es_keep e) (es_residuals e) (es_predictions e) d (es_ies e)
         (mkCommon (co_solver (es_common e)) (co_rtol (es_common e)) (co_atol (es_common e)) tool).
 (* from_dict (to_dict e) *)
 Definition est_flat (e : eststep) : eststep :=
-  est_with e (es_res_kind e) (es_pred_kind e) (DStrs STuple (derivs_texts (es_derivatives e))) (co_tool (es_common e)).
+  est_with e (DStrs (derivs_texts (es_derivatives e))) (co_tool (es_common e)).
 Definition step_flat (s : step) : step := match s with StEst e => StEst (est_flat e) | StSim x => StSim x end.
-Definition derivs_canon (d : derivs) : bool := match d with DStrs STuple _ => true | _ => false end.
+Definition derivs_canon (d : derivs) : bool := match d with DStrs _ => true | _ => false end.
 Definition step_canon (s : step) : bool :=
   match s with StEst e => derivs_canon (es_derivatives e) | StSim _ => true end.
 
-(* from_dict (json.loads (json.dumps (to_dict x))): sequences handed through verbatim come back as
-   lists, verbatim values come back normalised *)
-Definition norm_items (d : list (pkey * pyv)) : list (pkey * pyv) :=
-  map (fun kv => match kv with (k, x) => (norm_key k, normalise x) end) d.
-Definition dist_json (x : dist) : dist :=
-  match x with
-  | DNormal n => DNormal n
-  | DJoint j => DJoint (mkJoint SList (jn_names j) (jn_level j) (jn_mean j) (jn_var j))
-  end.
-Definition rvs_json (r : rvs) : rvs := mkRvs (map dist_json (rv_dists r)) (rv_eta r) (rv_eps r).
+(* from_dict (json.loads (json.dumps (to_dict x))): tuples are restored; values held verbatim (tool
+   options, category values, initial estimates) come back normalised *)
 Definition est_json (e : eststep) : eststep :=
-  est_with e SList SList (DStrs SList (derivs_texts (es_derivatives e))) (norm_items (co_tool (es_common e))).
+  est_with e (DStrs (derivs_texts (es_derivatives e))) (norm_items (co_tool (es_common e))).
 Definition sim_json (s : simstep) : simstep :=
   mkSim (ss_n s) (ss_seed s)
         (mkCommon (co_solver (ss_common s)) (co_rtol (ss_common s)) (co_atol (ss_common s))
@@ -932,7 +921,7 @@ Definition sim_json (s : simstep) : simstep :=
 Definition step_json (s : step) : step :=
   match s with StEst e => StEst (est_json e) | StSim x => StSim (sim_json x) end.
 Definition column_json (c : column) : column :=
-  mkColumn (ci_name c) (ci_type c) (ci_unit c) (ci_scale c) (ci_continuous c) (normalise (ci_categories c))
+  mkColumn (ci_name c) (ci_type c) (ci_unit c) (ci_scale c) (ci_continuous c) (cats_json (ci_categories c))
            (ci_drop c) (ci_datatype c) (ci_descriptor c).
 Definition di_json (x : datainfo) : datainfo :=
   mkDi (map column_json (di_columns x)) None (di_separator x) (di_missing x).
@@ -941,19 +930,16 @@ Definition model_flat (m : model) : model :=
           (mkDi (di_columns (m_datainfo m)) None (di_separator (m_datainfo m)) (di_missing (m_datainfo m)))
           (m_value_type m) (m_depvars m) (m_obstrans m) (m_iie m).
 Definition model_json (m : model) : model :=
-  mkModel "" "" (m_parameters m) (rvs_json (m_rvs m)) (m_statements m) (map step_json (m_steps m))
+  mkModel "" "" (m_parameters m) (m_rvs m) (m_statements m) (map step_json (m_steps m))
           (di_json (m_datainfo m)) (m_value_type m) (m_depvars m) (m_obstrans m) (option_map normalise (m_iie m)).
 
-(* objects the JSON text represents exactly *)
-Definition dist_json_ok (x : dist) : bool := match x with DNormal _ => true | DJoint j => skind_eqb (jn_kind j) SList end.
+(* objects the JSON text represents exactly: nothing held verbatim changes under normalise *)
 Definition step_json_ok (s : step) : bool :=
   match s with
-  | StEst e => skind_eqb (es_res_kind e) SList && skind_eqb (es_pred_kind e) SList
-               && match es_derivatives e with DStrs SList _ => true | _ => false end
-               && is_json (PDict (co_tool (es_common e)))
+  | StEst e => derivs_canon (es_derivatives e) && is_json (PDict (co_tool (es_common e)))
   | StSim x => is_json (PDict (co_tool (ss_common x)))
   end.
-Definition column_json_ok (c : column) : bool := is_json (ci_categories c).
+Definition column_json_ok (c : column) : bool := cats_is_json (ci_categories c).
 
 (* the same model under another name, description and data path *)
 Definition with_meta (m : model) (nm de : string) (pa : option string) : model :=
@@ -982,8 +968,38 @@ Definition same_enum (g h : graph) : bool :=
 Definition stmt_ok (s : stmt) : bool := match s with SOde c => cs_ok c | SAssign _ => true end.
 Definition stmt_same_enum (a b : stmt) : bool :=
   match a, b with SOde x, SOde y => same_enum (cs_g x) (cs_g y) | _, _ => true end.
+(* ---- the order in which ModelHash encodes a system (workflows/hashing.py, _encode) ----------
+   compartments sorted by name (the output node has none: key ''), rate indices renumbered to the
+   new positions, rates sorted.  Stated on the graph: the encoded dictionary is to_dict of the
+   re-ordered system (up to tuple/list, which json.dumps does not distinguish): nodes sorted by
+   name, every node's successors sorted by their new position.  (sorted() on the (u, v, rate)
+   triples looks at the rate text only for two flows between the same pair, which a graph
+   cannot hold.) *)
+Definition node_name (n : node) : string := match n with NOut => "" | NComp c => c_name c end.
+Definition pos_in (n : node) (l : list node) : nat :=
+  match index_of n l with Some i => i | None => List.length l end.
+Definition adj_of (n : node) (g : graph) : list (node * E) := match g_lookup n g with Some a => a | None => [] end.
+Definition graph_canon (g : graph) : graph :=
+  let ns := sort_by node_name str_leb (g_nodes g) in
+  map (fun n => (n, sort_by (fun vr : node * E => pos_in (fst vr) ns) Nat.leb (adj_of n g))) ns.
+Definition cs_canon (s : csys) : csys := mkCs (graph_canon (cs_g s)) (cs_t s).
+Definition stmt_canon (st : stmt) : stmt := match st with SOde c => SOde (cs_canon c) | SAssign a => SAssign a end.
+Definition names_distinct (g : graph) : bool :=
+  (fix nd (l : list string) : bool :=
+     match l with [] => true | x :: tl => negb (existsb (String.eqb x) tl) && nd tl end) (map node_name (g_nodes g)).
+
 (* dependent variables are symbols: Expr.symbol(str(y)) is y *)
 Definition depvars_ok (m : model) : Prop := forall kv, In kv (m_depvars m) -> sym_of G (sym_str G (fst kv)) = fst kv.
+
+(* the same model with other statements *)
+Definition with_statements (m : model) (l : list stmt) : model :=
+  mkModel (m_name m) (m_description m) (m_parameters m) (m_rvs m) l (m_steps m)
+          (m_datainfo m) (m_value_type m) (m_depvars m) (m_obstrans m) (m_iie m).
+(* the dictionary ModelHash encodes *)
+Definition model_canon (m : model) : model :=
+  mkModel (m_name m) (m_description m) (m_parameters m) (m_rvs m) (map stmt_canon (m_statements m)) (m_steps m)
+          (m_datainfo m) (m_value_type m) (m_depvars m) (m_obstrans m) (m_iie m).
+Definition model_encode (m : model) : pyv := model_to_dict (model_canon m).
 
 End Components.
 
@@ -1010,11 +1026,7 @@ Variable digest : Type.
 Variable H : string -> digest.           (* sha256, then base64 *)
 (* [ds]: the bytes fed from the dataset — 8 bytes per row hash of pandas' hash_pandas_object,
    then repr(columns), repr(index), repr(dtypes) *)
-(* None: json.dumps raises TypeError *)
-Definition key_text (m : model G) : string := dumps (model_to_dict G (blank G m)).
-Definition key (ds : string) (m : model G) : option digest :=
-  let d := model_to_dict G (blank G m) in
-  if jsonable d then Some (H (ds ++ dumps d)) else None.
+Definition key (ds : string) (m : model G) : digest := H (ds ++ dumps (model_encode G (blank G m))).
 End Key.
 
 (* what the separation theorems assume of json.dumps and of sha256, on the two compared inputs only *)
